@@ -4,13 +4,25 @@
 (* ColourMath.tla; the agreement in bits must reach the threshold of the edge      *)
 (* class and component type.  With CALIB=1 in the environment the measured bits     *)
 (* are printed as NOTE lines (calibration runs), nothing is rejected.              *)
-EXTENDS OkColour, HsluvRef, Json, IOUtils, TLC
+EXTENDS OkColour, HsluvRef, LnExp, Json, IOUtils, TLC
 
 Rec == ndJsonDeserialize(IOEnv.TRACE)
 Calib == "CALIB" \in DOMAIN IOEnv /\ IOEnv.CALIB = "1"
 VARIABLES l, K
 
 FxSeq(js) == [i \in DOMAIN js |-> FxOf(js[i])]
+
+(* IEC 61966-2-1: linear = e / 12.92 for e <= 0.04045, else ((e + 0.055) / 1.055)^2.4 (real power by exp and ln, 65 fractional
+   bits); odd for negative values; agreement absolute (relative to 1); within 2^-20 of the join either piece is accepted *)
+TfFl == 5
+SrgbLin(e) == FxOfP(ExpP(PMul(PRat(24, 10, TfFl), LnP(POfFx(FxDiv(FxAdd(e, FxRat(55, 1000)), FxRat(1055, 1000)), TfFl), TfFl), TfFl), TfFl), TfFl)
+SrgbTfBits1(e, lin) ==
+  LET lo == AgreeBits(FxDiv(e, FxRat(1292, 100)), lin, FxOne)
+      join == FxRat(4045, 100000)
+  IN IF FxLt(e, FxSub(join, FxEps(20))) THEN lo
+     ELSE LET hi == AgreeBits(SrgbLin(e), lin, FxOne) IN IF FxLt(FxAdd(join, FxEps(20)), e) THEN hi ELSE IF lo >= hi THEN lo ELSE hi
+SrgbTfBits(e, lin) == IF e[1] * lin[1] < 0 THEN AgreeBits(e, lin, FxOne) ELSE SrgbTfBits1(FxAbs(e), FxAbs(lin))
+CrossTfBits(enc, lin) == Min3i(SrgbTfBits(enc[1], lin[1]), SrgbTfBits(enc[2], lin[2]), SrgbTfBits(enc[3], lin[3]))
 
 (* which relation, and oriented how: <<name, first argument, second argument>> *)
 EdgeBits(a, b, in, out) ==
@@ -57,6 +69,11 @@ EdgeBits(a, b, in, out) ==
     [] a = "lch50" /\ b = "lab50" -> PolarBits(out, in)
     [] a = "xyzdci" /\ b = "labdci" -> LabBitsW(WhiteDci, in, out)
     [] a = "labdci" /\ b = "xyzdci" -> LabBitsW(WhiteDci, out, in)
+    \* hexcone colours of two standards with the same primaries: the RGB triples behind them are one transfer curve apart
+    [] a = "hsv" /\ b = "hsv_linsrgb" -> CrossTfBits(HsvRgb(in), HsvRgb(out))
+    [] a = "hsv_linsrgb" /\ b = "hsv" -> CrossTfBits(HsvRgb(out), HsvRgb(in))
+    [] a = "hsl" /\ b = "hsl_linsrgb" -> CrossTfBits(HslRgb(in), HslRgb(out))
+    [] a = "hsl_linsrgb" /\ b = "hsl" -> CrossTfBits(HslRgb(out), HslRgb(in))
     [] a = "lchuv" /\ b = "hsluv" -> HsluvBits(in, out)
     [] a = "hsluv" /\ b = "lchuv" -> HsluvBits(out, in)
     [] a = "xyz" /\ b = "lmsvk" -> MatBits(K.vk, in, out)
